@@ -25,7 +25,7 @@ def r1_harness_coverage(ctx):
     ctx.set_rule('C13.R1')
     P = ctx.P
     execs = P.call_sites_of(H + '::exec')
-    ctx.floor('Harness::exec sites', len(execs), 6)
+    ctx.floor('functions with Harness::exec sites (one per module entry point)', len({(s.fn.root or s.fn.key) if s.fn.kind == 'closure' else s.fn.key for s in execs}), 5)
     harnessed = set()
     for s in execs:
         arg = peel(s.fn.expr_operand(s.args[1], s.b, 'T'))
